@@ -686,7 +686,7 @@ pub fn relation(b: &TileBBox, cov: Option<&(u32, u32, u32, u32)>) -> &'static st
 // ---------------------------------------------------------------------------------------
 
 use crate::gen::{self, GenCfg};
-use crate::model::{Advert, Pay};
+use crate::model::{Advert, LevelSpec, Pay, Shape};
 use proptest::prelude::*;
 
 pub fn leaf_kind(pairs_ok: impl Fn(Target) -> bool + 'static) -> impl Strategy<Value = LeafKind> {
@@ -757,6 +757,9 @@ pub fn node(max_zoom: u8, depth: u32) -> BoxedStrategy<Node> {
 			prop_oneof![
 				3 => proptest::collection::vec(inner.clone(), 2..4).prop_map(Node::Overlay),
 				2 => proptest::collection::vec(inner.clone(), 2..4).prop_map(Node::Merge),
+				// sources placed around a common anchor, so that coverages overlap partially
+				3 => overlay_leaves(Some(Fmt::Pbf)).prop_map(|v| Node::Overlay(v.into_iter().map(Node::Leaf).collect())),
+				2 => overlay_leaves(Some(Fmt::Pbf)).prop_map(|v| Node::Merge(v.into_iter().map(Node::Leaf).collect())),
 				2 => (inner.clone(), proptest::option::of(0u8..12), proptest::option::of(0u8..14)).prop_map(|(src, min, max)| Node::FilterZoom { src: Box::new(src), min, max }),
 				2 => (inner, geo_bbox()).prop_map(|(src, bbox)| Node::FilterBbox { src: Box::new(src), bbox }),
 			]
@@ -773,3 +776,58 @@ impl Source {
 		}
 	}
 }
+
+/// 2-4 leaves with partially overlapping rectangles around a common anchor
+pub fn overlay_leaves(force_format: Option<Fmt>) -> impl Strategy<Value = Vec<Leaf>> {
+	let anchor = (crate::gen::zoom(31), any::<u32>(), any::<u32>(), 0usize..3);
+	(anchor, proptest::collection::vec((0u32..7, 0u32..7, 1u32..12, 1u32..12, -1i8..=1, crate::gen::shape(), any::<u32>(), 0usize..3, 0usize..12, any::<u32>(), any::<bool>(), 0usize..3), 2..5)).prop_map(
+		move |((z, ax, ay, fsel), parts)| {
+			let format = force_format.unwrap_or([Fmt::Png, Fmt::Pbf, Fmt::Json][fsel]);
+			let mut leaves = vec![];
+			for (i, (dx, dy, w, h, dz, shape, seed, csel, ksel, lseed, ds, asel)) in parts.into_iter().enumerate() {
+				let z2 = (z as i16 + dz as i16).clamp(0, 31) as u8;
+				let size = Coord::size(z2);
+				let scale = |v: u32| -> u64 {
+					if z2 > z {
+						(v as u64) << (z2 - z)
+					} else {
+						(v as u64) >> (z - z2)
+					}
+				};
+				let ax = scale(ax % Coord::size(z) as u32) % size;
+				let ay = scale(ay % Coord::size(z) as u32) % size;
+				let x0 = (ax + dx as u64).min(size - 1) as u32;
+				let y0 = (ay + dy as u64).min(size - 1) as u32;
+				let mut levels = vec![LevelSpec { z: z2, x0, y0, w, h, shape: shape.clone(), seed }];
+				// some sources get a second level: different zoom ranges
+				if seed % 3 == 0 && z2 < 31 {
+					levels.push(LevelSpec { z: z2 + 1, x0: x0.saturating_mul(2), y0: y0.saturating_mul(2), w: w.min(6), h: h.min(6), shape: Shape::Dense, seed });
+				}
+				let comp = Comp::ALL[csel];
+				let kind = {
+					let t = Target::ALL[ksel % 5];
+					if ksel >= 10 || !t.accepts(format, comp) {
+						LeafKind::Mem(ds)
+					} else if ksel < 5 {
+						LeafKind::Repo(t)
+					} else {
+						LeafKind::Enc(t, lseed)
+					}
+				};
+				let spec = SetSpec {
+					tag: format!("src{i}"),
+					levels,
+					pay: if format == Fmt::Pbf { Pay::Mvt } else { Pay::CoordText },
+					format,
+					comp,
+					really_compressed: true,
+					advert: [Advert::Tight, Advert::Loose(1), Advert::Loose(3)][asel].clone(),
+					meta: None,
+				};
+				leaves.push(Leaf { spec, kind });
+			}
+			leaves
+		},
+	)
+}
+
